@@ -156,16 +156,29 @@ def probe_features(prog, an, f, rep, cn):
 
 # ---------------------------------------------------------------- path enumeration of init functions
 
-def enum_paths(f, limit=256):
+def enum_paths(f, limit=256, collapse_loops=False):
+    """acyclic paths entry -> return.  With collapse_loops a natural loop is stepped over: from its header the path
+    continues at the loop's exit targets (what happens inside is some other rule's business)."""
     paths = []
+    loops = f.loops() if collapse_loops else {}
 
     def rec(b, acc):
         if len(paths) > limit:
             raise AnalysisBroken("too many paths in %s" % f.name)
         if b in acc:
+            if collapse_loops:
+                return
             raise AnalysisBroken("loop in init function %s" % f.name)
         acc = acc + [b]
         ss = f.succs[b]
+        if b in loops:
+            body = loops[b]
+            ex = []
+            for x in body:
+                for y in f.succs[x]:
+                    if y not in body and y not in ex:
+                        ex.append(y)
+            ss = ex
         if not ss:
             paths.append(acc)
             return
